@@ -198,6 +198,32 @@ thread_local! {
     pub static WHILE_BOUND: std::cell::Cell<usize> = std::cell::Cell::new(10_000);
 }
 
+/// total order of concrete values (numbers, characters, text, booleans, tuples of those) — None when a value is not concrete
+pub fn cmp_vals(a: &Val, b: &Val) -> Option<std::cmp::Ordering> {
+    match (a, b) {
+        (Val::Int { v: x, .. }, Val::Int { v: y, .. }) => Some(x.cmp(y)),
+        (Val::Char(x), Val::Char(y)) => Some(x.cmp(y)),
+        (Val::Str(x), Val::Str(y)) => Some(x.cmp(y)),
+        (Val::Bool(x), Val::Bool(y)) => Some(x.cmp(y)),
+        (Val::Tuple(x), Val::Tuple(y)) if x.len() == y.len() => {
+            for (p, q) in x.iter().zip(y) {
+                match cmp_vals(p, q)? {
+                    std::cmp::Ordering::Equal => {}
+                    o => return Some(o),
+                }
+            }
+            Some(std::cmp::Ordering::Equal)
+        }
+        (Val::Ctor(n, p, _), Val::Ctor(m, q, _)) if (n == "Some" || n == "None") && (m == "Some" || m == "None") => match (n.as_str(), m.as_str()) {
+            ("None", "None") => Some(std::cmp::Ordering::Equal),
+            ("None", _) => Some(std::cmp::Ordering::Less),
+            (_, "None") => Some(std::cmp::Ordering::Greater),
+            _ => cmp_vals(p.first()?, q.first()?),
+        },
+        _ => None,
+    }
+}
+
 pub fn new_set() -> Val {
     Val::Ctor("$set".into(), vec![], BTreeMap::new())
 }
@@ -1285,7 +1311,7 @@ impl<'a> Evaluator<'a> {
                     }
                 }
             }
-            Expr::MethodCall(mc) if ["insert", "remove", "clear"].contains(&mc.method.to_string().as_str())
+            Expr::MethodCall(mc) if ["insert", "remove", "clear", "extend", "append"].contains(&mc.method.to_string().as_str())
                 && self.place_of(&mc.receiver).is_some()
                 && matches!(self.eval(&mc.receiver, env), Ok(Val::Ctor(n, _, _)) if n == "$map") =>
             {
@@ -1305,6 +1331,26 @@ impl<'a> Evaluator<'a> {
                         let k = map_key(args.first().ok_or("remove without key")?);
                         Ok(f.remove(&k).map(Val::some).unwrap_or(Val::none()))
                     }
+                    "extend" | "append" => match args.into_iter().next() {
+                        Some(Val::List(items)) => {
+                            for it in items {
+                                match it {
+                                    Val::Tuple(kv) if kv.len() == 2 => {
+                                        f.insert(map_key(&kv[0]), kv[1].clone());
+                                    }
+                                    o => return Err(format!("map.extend with the item {}", o.show())),
+                                }
+                            }
+                            Ok(Val::Unit)
+                        }
+                        Some(Val::Ctor(n, _, g)) if n == "$map" => {
+                            for (k, v) in g {
+                                f.insert(k, v);
+                            }
+                            Ok(Val::Unit)
+                        }
+                        o => Err(format!("map.extend({:?})", o.map(|x| x.show()))),
+                    },
                     _ => {
                         f.clear();
                         Ok(Val::Unit)
@@ -1320,6 +1366,38 @@ impl<'a> Evaluator<'a> {
                     Some(Val::List(l)) => Ok(if l.is_empty() { Val::none() } else { Val::some(l.remove(0)) }),
                     _ => Err("iterator place lost".into()),
                 }
+            }
+            Expr::MethodCall(mc) if ["sort_by", "sort_by_key", "sort_unstable_by", "sort_unstable_by_key"].contains(&mc.method.to_string().as_str())
+                && mc.args.len() == 1
+                && self.place_of(&mc.receiver).is_some()
+                && matches!(self.eval(&mc.receiver, env), Ok(Val::List(_))) =>
+            {
+                let place = self.place_of(&mc.receiver).unwrap();
+                let Ok(Val::List(items)) = self.eval(&mc.receiver, env) else { unreachable!() };
+                let by_key = mc.method.to_string().ends_with("_key");
+                // a stable insertion sort driven by the closure (lists in the scenarios are short)
+                let mut sorted: Vec<(Val, Val)> = vec![]; // (key, item)
+                for it in items {
+                    let key = if by_key { self.apply_closure_mut(&mc.args[0], &[it.clone()], env)? } else { Val::Unit };
+                    let mut at = sorted.len();
+                    while at > 0 {
+                        let ord = if by_key {
+                            cmp_vals(&sorted[at - 1].0, &key).ok_or_else(|| format!("sort_by_key: keys {} / {} are not comparable", sorted[at - 1].0.show(), key.show()))?
+                        } else {
+                            match self.apply_closure_mut(&mc.args[0], &[sorted[at - 1].1.clone(), it.clone()], env)? {
+                                Val::Ctor(n, _, _) if n == "Less" => std::cmp::Ordering::Less,
+                                Val::Ctor(n, _, _) if n == "Equal" => std::cmp::Ordering::Equal,
+                                Val::Ctor(n, _, _) if n == "Greater" => std::cmp::Ordering::Greater,
+                                o => return Err(format!("sort_by: comparator returned {}", o.show())),
+                            }
+                        };
+                        if ord == std::cmp::Ordering::Greater { at -= 1 } else { break }
+                    }
+                    sorted.insert(at, (key, it));
+                }
+                let target = place_get_mut(env, &place).ok_or_else(|| format!("cannot resolve place {}", tok(&mc.receiver)))?;
+                *target = Val::List(sorted.into_iter().map(|(_, it)| it).collect());
+                Ok(Val::Unit)
             }
             Expr::MethodCall(mc) if ["push", "append", "append_all", "extend", "insert", "remove", "push_str", "clear", "truncate", "pop", "sort", "reverse", "retain", "dedup", "swap", "drain"].contains(&mc.method.to_string().as_str())
                 && self.place_of(&mc.receiver).is_some()
@@ -1905,6 +1983,12 @@ impl<'a> Evaluator<'a> {
                         _ => Ok(Val::none()),
                     },
                     "flatten" if is_some || is_none => Ok(if is_some { inner.unwrap() } else { Val::none() }),
+                    "cmp" | "partial_cmp" if mc.args.len() == 1 && cmp_vals(&recv, &recv).is_some() => {
+                        let other = self.eval(&mc.args[0], env)?;
+                        let o = cmp_vals(&recv, &other).ok_or_else(|| format!(".cmp() of {} and {}", recv.show(), other.show()))?;
+                        let v = Val::ctor(match o { std::cmp::Ordering::Less => "Less", std::cmp::Ordering::Equal => "Equal", std::cmp::Ordering::Greater => "Greater" });
+                        Ok(if name == "cmp" { v } else { Val::some(v) })
+                    }
                     "is_some_and" | "map_or" | "map" | "and_then" | "then" | "then_some" | "or" | "min" | "max" => {
                         self.eval_combinator(&name, recv, mc, env)
                     }
@@ -1915,6 +1999,11 @@ impl<'a> Evaluator<'a> {
                         }
                         if let Some(r) = (self.call_hook)(self, &format!(".{}", name), &args) {
                             return r;
+                        }
+                        // a modelled collection answers every method it is asked, or the analysis stops: an unknown method
+                        // treated as an opaque no-op would silently drop an update
+                        if matches!(&recv, Val::Ctor(n, _, _) if n == "$map" || n == "$set") || matches!(&recv, Val::List(_)) {
+                            return Err(format!("unmodelled method .{}() on {}", name, recv.show().chars().take(80).collect::<String>()));
                         }
                         Ok(Val::Opaque(format!("method .{}() on {}", name, recv.show())))
                     }
